@@ -1069,6 +1069,52 @@ func ruleT7T8(c *Ctx) {
 			}
 		}
 	}
+	// ... also through a package-level table the parser's methods consult (`virtualBrackets[p.current.Type]`)
+	parserUses := map[types.Object]bool{}
+	for _, f := range pk.Syntax {
+		for _, d := range f.Decls {
+			if fd, ok := d.(*ast.FuncDecl); ok && fd.Body != nil && recvTypeName(fd) == "Parser" {
+				ast.Inspect(fd.Body, func(x ast.Node) bool {
+					if id, ok := x.(*ast.Ident); ok {
+						if v, ok := info.Uses[id].(*types.Var); ok && v.Parent() == pk.Types.Scope() {
+							parserUses[v] = true
+						}
+					}
+					return true
+				})
+			}
+		}
+	}
+	for _, f := range pk.Syntax {
+		for _, d := range f.Decls {
+			gd, ok := d.(*ast.GenDecl)
+			if !ok || gd.Tok != token.VAR {
+				continue
+			}
+			for _, sp := range gd.Specs {
+				vs := sp.(*ast.ValueSpec)
+				used := false
+				for _, n := range vs.Names {
+					if parserUses[info.Defs[n]] {
+						used = true
+					}
+				}
+				if !used {
+					continue
+				}
+				for _, v := range vs.Values {
+					ast.Inspect(v, func(x ast.Node) bool {
+						if id, ok := x.(*ast.Ident); ok && strings.HasPrefix(id.Name, "Token") {
+							if cn, ok := info.Uses[id].(*types.Const); ok && strings.HasSuffix(types.TypeString(cn.Type(), nil), "parser.TokenType") {
+								tested[id.Name] = true
+							}
+						}
+						return true
+					})
+				}
+			}
+		}
+	}
 	var es []string
 	for k := range emitted {
 		es = append(es, k)
